@@ -1,3 +1,4 @@
+import FluentProofs.ConstTieResolver
 import FluentProofs.ResolverIso5
 /-!
 # C09 — bidi isolation is additive, balanced and confined to interpolated values
